@@ -60,8 +60,9 @@ CLAIMED = {
                      'p_spec.is_prefix(tree_structure(t)); same configuration, no predicate; flatten = enc . shapeOf by Lemmas/ShapeOf.lean); '
                      'C07_is_prefix_of_flatten (flatten produces such encodings for every '
                      'well-formed tree, configuration, predicate and registry: Lemmas/EncFlatten.lean). That every node array of the real engine is such an encoding is checked '
-                     'by the correspondence stream ((is_enc ...) lines). prefix_errors (Python) and the order laws (transitivity, antisymmetry up to dict kind / order): '
-                     'correspondence plus an independent reference prefix relation in the oracle.' + PARTIAL,
+                     'by the correspondence stream ((is_enc ...) lines). C07_is_prefix_refl, C07_is_prefix_trans (the prefix relation is a preorder: transitivity through any chain of dict kinds / key '
+                     'orders), C07_is_prefix_antisymm (mutual prefixes have equal node counts). prefix_errors (Python): correspondence plus an '
+                     'independent reference prefix relation in the oracle.' + PARTIAL,
                 technique='Lean 4 proof (refinement of the array walk to a tree-level relation, mutual structural induction) + correspondence + reference oracle', ref='6 C07'),
     'C08': dict(text='Proved for all shapes, any pattern of sibling sub-tree sizes: C08_children_refines (children() slices the post-order array by '
                      'num_nodes offsets into exactly the child encodings, in order), C08_child_refines (child(i) = i-th child under Python index '
